@@ -99,6 +99,19 @@ CHECKS = {
             "Rosenbrock tables are taken from the method names (the source only states err_order). Open known finding: "
             "dirk34 tableau (matched by the exact residual fingerprint).",
             "DESIGN.md section 2, C12"),
+    "C14": ("exploration",
+            "exhaustive itertools enumeration of join orders (with repetitions, omissions, flips, re-parametrisations) for "
+            "small patch complexes + Hypothesis-generated complexes / conforming decompositions; oracle = union-find over "
+            "the declared identifications and single-patch assembly",
+            "All orders of the interface joins for 2x1, 2x2, 3x2 complexes and rings of 3..6 patches (2x2x2 sampled), with "
+            "all consistent flips and re-parametrisations, are enumerated and compared with a union-find model: numdofs = "
+            "number of classes, equal global index iff same class, gap-free numbering, 0/1 patch-to-global matrices with "
+            "X^T X = I. Generated conforming decompositions of a curved patch are compared with the undivided patch "
+            "(mass, stiffness, non-symmetric space-time heat, L2 functional), detect_interfaces must return exactly the "
+            "constructed interfaces with flips, multipatch Dirichlet data must address the glued dofs. Exhaustive for "
+            "the stated complexes, sampling beyond.",
+            "Trusted: vp/ref/c14_glue.py (union-find, own face enumeration with the documented flip semantics).",
+            "DESIGN.md section 2, C14"),
     "C15": ("exploration",
             "exhaustive itertools enumeration of all small per-level patterns (1-3 levels of 2x2/2x3/3x3 blocks, 4-6 levels "
             "of 1x2/2x1 blocks) + Hypothesis-generated structures with 1-6 levels; oracle = dense Kronecker definition "
@@ -122,6 +135,17 @@ CHECKS = {
             "Trusted: numpy dense linear algebra. Excluded as outside the documented domain: BlockOperator with None "
             "placeholders, fastdiag_solver with sparse inputs, complex dtypes.",
             "DESIGN.md section 2, C16"),
+    "C18": ("exploration",
+            "model-based generated operation sequences (Hypothesis; pool of tensors with numpy reference arrays, checked "
+            "after every step) + generated operators/tensors for HOSVD/ACA/ALS; oracle = dense numpy arrays",
+            "Sequences of up to 8 operations (add/sub/neg across canonical/Tucker/ndarray/sum/product formats, indexing "
+            "with negative and stepped slices and index lists, squeeze, mode products, pad, conversions, orthogonalize, "
+            "compress, truncate, join_tucker_bases, norms) are executed on pyiga tensors and on numpy arrays in lock step "
+            "with an accumulated tolerance; CanonicalOperator algebra, HOSVD exactness/orthonormality, compression error "
+            "bounds, TensorGenerator indexing, cross approximation of exact low-rank inputs and greedy error histories "
+            "are checked against dense references. Sampling, not proof.",
+            "Trusted: numpy dense tensor algebra (vp/ref/c18_dense.py). numpy's global RNG is seeded from the spec.",
+            "DESIGN.md section 2, C18"),
     "C19": ("exploration",
             "exhaustive enumeration of (p,n,mult) + Hypothesis-generated intervals/knot vectors/points against a "
             "linear-scan / exact-rational reference model",
